@@ -99,7 +99,7 @@ def run_tasks(fn, args, nproc=None):
 
 # ----------------------------------------------------------------------- recorder
 class Recorder:
-    MAX_PER_BUCKET = 4
+    MAX_PER_BUCKET = 8
 
     def __init__(self, check, real_deadline=None):
         self.check = check
@@ -335,7 +335,7 @@ def merge(results):
             cur = tot["buckets"].setdefault(b, [])
             cur.extend(lst)
             cur.sort(key=lambda x: x[0])
-            del cur[4:]
+            del cur[12:]
     return tot, errors
 
 
@@ -402,6 +402,14 @@ def run_check(check, tier, seed, wall_budget=None):
         if e is not None:
             known_hit.setdefault(e["id"], []).append(b)
             continue
+        # prefer a witness that shows the violation when it is run on its own in this (fresh) process: a violation that needs
+        # the cases run before it in a worker (state the library keeps between objects) would not replay from its file
+        isolated = False
+        for wi, (size_, params_, v_, origin_) in enumerate(tot["buckets"][b]):
+            if _shows_alone(cid, params_, b, "%s.w%d" % (hashlib.sha1(b.encode()).hexdigest()[:12], wi)):
+                size, params, v, origin = size_, params_, v_, origin_
+                isolated = True
+                break
         try:
             small, evals = shrink(check, params, b, max_evals=(150 if tier == "quick" else 600))
         except sk.HarnessError as he:
@@ -417,11 +425,18 @@ def run_check(check, tier, seed, wall_budget=None):
                 small = params
         except Exception:
             small = params
+        if isolated and canon(small) != canon(params) and \
+                not _shows_alone(cid, small, b, "%s.s" % hashlib.sha1(b.encode()).hexdigest()[:12]):
+            small = params                # (shrinking in this process was helped by state left by earlier cases)
         name = "%s.json" % hashlib.sha1(b.encode()).hexdigest()[:12]
         path = os.path.join(OUT, "replays", cid, name)
         with open(path, "w") as f:
             json.dump({"property": cid, "tier": tier, "seed": seed, "bucket": b, "violation": v,
-                       "origin": origin, "params": small, "tree": tree_id(), "shrink_evals": evals},
+                       "origin": origin, "params": small, "tree": tree_id(), "shrink_evals": evals,
+                       "reproduces_on_its_own": isolated,
+                       "note": None if isolated else "none of the witnesses of this bucket shows the violation when run alone in a fresh "
+                       "process: it depends on the cases run before it in the same worker (state kept by the library between "
+                       "objects); re-run the check command with the same VERIF_SEED to see it again"},
                       f, indent=1, sort_keys=True, default=_default)
         violations.append((b, path, v))
 
@@ -470,6 +485,25 @@ def run_check(check, tier, seed, wall_budget=None):
           % (cid, tier, seed, tot["evaluations"], tot["subruns"], len(tot["nontrivial"]), len(violations),
              len(known_hit), wall))
     return 1 if violations else 0
+
+
+def _shows_alone(cid, params, bucket, tag):
+    """Does the case show this bucket when it is the only case of a fresh process?"""
+    import subprocess
+    tmp = os.path.join(OUT, "replays", cid, "_witness_%s.json" % tag)
+    with open(tmp, "w") as f:
+        json.dump({"params": params}, f, default=_default)
+    try:
+        r = subprocess.run([sys.executable, os.path.join(VERIF, "check.py"), cid, "--replay", tmp], capture_output=True, text=True,
+                           timeout=900, cwd=VERIF)
+        return r.returncode == 1 and ("bucket: %s\n" % bucket) in r.stdout
+    except Exception:
+        return False
+    finally:
+        try:
+            os.remove(tmp)
+        except OSError:
+            pass
 
 
 def replay(check, path):
